@@ -286,11 +286,17 @@ def surely_compatible(c, s, flavour, skey):
         if skey == "rsa":
             hs = [h for h in eff(c, "rsaSigHashes")
                   if h in eff(s, "rsaSigHashes")]
-            if not hs:
-                return False, "no common rsa hash"
-            if not [p for p in eff(c, "rsaSchemes")
-                    if p in eff(s, "rsaSchemes")]:
-                return False, "no common rsa scheme"
+            ps = [p for p in eff(c, "rsaSchemes")
+                  if p in eff(s, "rsaSchemes")]
+            # a usable (padding, hash) pair must exist: PSS is only defined
+            # with SHA-256/384/512
+            usable = [(p, h) for p in ps for h in hs
+                      if p == "pkcs1" or h in ("sha256", "sha384", "sha512")]
+            if not usable:
+                return False, "no common rsa signature scheme"
+            # the server must be able to build *some* scheme from its own
+            # lists at all (it refuses the handshake otherwise, even for
+            # RSA key transport)
             if "sha256" not in eff(c, "rsaSigHashes") or \
                     "pkcs1" not in eff(c, "rsaSchemes"):
                 return False, "cert signature alg not advertised"
